@@ -8,6 +8,11 @@ result; P3 history independence -- every operation's outcome equals the outcome 
 alone in a fresh twin world (same declarations under other names, no history).
 """
 import copy
+import os
+import sys
+
+if __name__ == "__main__":      # the fresh-interpreter helper (see fresh_process_outcomes)
+    sys.path.insert(0, os.path.dirname(os.path.dirname(os.path.abspath(__file__))))
 
 from sim import kernel, faults
 from sim.runner import RunResult
@@ -34,10 +39,10 @@ COMPONENTS = {
     "stub": ["leaf converter (fault site)", "default_factory and __validate__ bodies (hook fault sites)", "function bodies (echo their arguments)"],
 }
 TIERS = {
-    "quick": {"runs": 4000, "chunk": 50, "selftest": 48, "minimise_s": 60},
+    "quick": {"runs": 3000, "chunk": 50, "selftest": 48, "minimise_s": 60},
     "thorough": {"budget_s": 600, "chunk": 100, "selftest": 256, "minimise_s": 120},
 }
-PROBES = ["failed_parse_before_compare", "abandoned_generator", "result_mutated", "hook_fault_mid_parse", "other_module_same_names",
+PROBES = ["failed_parse_before_compare", "abandoned_generator", "result_mutated", "hook_fault_mid_parse", "other_module_same_names", "fresh_process_compared",
           "premature_use_then_define", "local_class", "default_taken", "leaf_fault"]
 
 
@@ -45,7 +50,7 @@ def source(sfx, p, with_inner=True, variant=0):
     """variant 1 = the 'other module': same class names, different fields."""
     S = "__" + sfx
     L = ["from utype import Schema, DataClass, Field, Options, Lax", "import utype",
-         "from typing import List, Dict, Tuple, Set, Optional, Any, Generator",
+         "from typing import List, Dict, Tuple, Set, Optional, Any, Generator, Annotated",
          "from sim.faults import Leaf, hook_point", "",
          "def fac_list():", "    hook_point('fac_list')", "    return [7]", "",
          "TEMPLATE = {'rows': [[0]], 'meta': {'tags': []}}", "",
@@ -61,17 +66,22 @@ def source(sfx, p, with_inner=True, variant=0):
           "    dct: Dict[str, List[int]] = {'k': [1]}", "    tup: Tuple[List[int], ...] = ([1],)", "    st: Set[int] = {1, 2}",
           "    raw: list = []", "    anyv: Any = {'a': [0]}", "    fl: List[int] = Field(default_factory=fac_list)",
           "    lax: list = Field(max_length=Lax(2), default_factory=list)",
+          "    ann: Annotated[List[int], Field(max_length=9)] = [3]",
+          "    exd: int = Field(default=0, on_error='exclude', dependencies=['dep'])", "    dep: int = Field(required=False)",
           "    tpl: dict = Field(default_factory=fac_template)",
           f"    inner: Optional['Inner{S}'] = None", f"    inners: List['Inner{S}'] = Field(default_factory=list)",
           "    leaf: Optional[Leaf] = None", "    def __validate__(self):", "        hook_point('validate')", ""]
     L += [f"class D{S}(DataClass):", f"    __options__ = {opt}", "    n: int", "    lst: List[int] = [1]",
           "    dct: Dict[str, List[int]] = {'k': [1]}", "    raw: list = []", "    fl: List[int] = Field(default_factory=fac_list)",
+          "    exd: int = Field(default=0, on_error='exclude', dependencies=['dep'])", "    dep: int = Field(required=False)",
           "    leaf: Optional[Leaf] = None", ""]
     L += [f"class FD{S}(Schema):", "    __options__ = Options(force_default=[5])", "    a: list", "    b: list", ""]
     L += ["@utype.parse", f"def f{S}(n: int, lst: List[int] = [1], dct: Dict[str, List[int]] = {{'k': [1]}}, leaf: Optional[Leaf] = None, *args: int, **kw: int):",
           "    return {'n': n, 'lst': lst, 'dct': dct, 'leaf': leaf, 'args': list(args), 'kw': kw}", ""]
     L += ["@utype.parse", f"def gen{S}(n: int, acc: List[int] = [0]) -> Generator[int, None, List[int]]:",
           "    for i in range(n):", "        acc.append(i)", "        yield i", "    return acc", ""]
+    L += ["@utype.parse", f"def h{S}(x: Optional['Inner{S}'] = None, n: int = 0, xs: List['Inner{S}'] = (), ann: Annotated[List[int], Field(max_length=9)] = [4]):",
+          "    return [x, n, list(xs), ann]", ""]
     L += [f"def make_local{S}():", "    class Loc(Schema):", "        x: List[int] = [1]", "        me: Optional['Loc'] = None",
           "        many: List['Loc'] = Field(default_factory=list)", "    return Loc", ""]
     return "\n".join(L) + "\n"
@@ -105,9 +115,14 @@ INIT_TEMPLATES = [
     {"n": 1, "raw": "[1, [2], {\"k\": [3]}]"},           # JSON text for a bare list
     {"n": 2, "dct": "{\"a\": [1], \"b\": [2]}", "raw": "[[1]]"},
     {"n": 2, "raw": "[1, [2], {\"k\": [3]}]", "anyv": [1]},
+    {"n": 1, "exd": "zz"},                                  # excluded, so its dependency is not demanded
+    {"n": 1, "exd": 5},                                     # kept: the dependency is missing
+    {"n": 1, "exd": 5, "dep": 1},
+    {"n": 1, "ann": [1, "2"]},
 ]
 D_TEMPLATES = [{"n": 1}, {"n": "2", "lst": ["3"]}, {"n": 1, "dct": {"q": [1]}}, {"n": "zz"}, {"n": 1, "raw": [[1]]},
-               {"n": 1, "leaf": {"$r": 0}}, {}]
+               {"n": 1, "leaf": {"$r": 0}}, {}, {"n": 1, "exd": "zz"}, {"n": 1, "exd": 5}, {"n": 1, "exd": 6, "dep": 2}]
+H_TEMPLATES = [{"n": 1}, {"n": "2", "x": {"v": "3"}}, {"xs": [{"v": 1}, {"tags": ["a"]}]}, {"n": 1, "ann": [7]}, {"x": {"v": "zz"}}, {}]
 F_TEMPLATES = [
     {"args": [1], "kw": {}}, {"args": ["2", [3]], "kw": {}}, {"args": [1], "kw": {"dct": {"z": ["1"]}}},
     {"args": [1, [1], {"k": [2]}, None, 5, "6"], "kw": {"x": "7"}}, {"args": ["zz"], "kw": {}}, {"args": [], "kw": {}},
@@ -161,8 +176,10 @@ def generate(rng, tier):
             if rng.random() < 0.5:
                 more["lst"] = rng.choice([[5], ["6"], ["zz"]])
             ops.append({"op": "init_pos", "cls": rng.choice(["A", "D"]), "data": d, "more": more})
-        elif r < 0.6:
+        elif r < 0.56:
             ops.append({"op": "call", **fill(rng.choice(F_TEMPLATES))})
+        elif r < 0.6:
+            ops.append({"op": "call_h", "kw": copy.deepcopy(rng.choice(H_TEMPLATES))})
         elif r < 0.7:
             n = rng.choice([2, 3, 4])
             ops.append({"op": "gen", "n": rng.choice([n, str(n), "zz"]), "take": rng.randint(0, n + 1), "acc": rng.choice([None, None, [5], ["6"]])})
@@ -185,6 +202,9 @@ def generate(rng, tier):
         hk["validate"] = {str(rng.choice([1, 2, 3])): rng.choice(["ValueError", "OSError", "SimFault"])}
     if hk:
         plan["faults"]["hook"] = hk
+    # a sample of the runs asks a FRESH INTERPRETER for the outcomes of the pristine probes: twin worlds share the
+    # process with the history, so state that the library keeps in module or class attributes would fool them both
+    plan["fresh_process"] = rng.random() < (0.03 if tier == "quick" else 0.05)
     return plan
 
 
@@ -296,6 +316,12 @@ def run_op(world, op, inputs_out=None):
             inputs_out.append(kw)
         f = world.get("f")
         return _outcome(lambda: f(*args, **kw))
+    if k == "call_h":
+        kw = _val(op["kw"])
+        if inputs_out is not None:
+            inputs_out.append(kw)
+        h = world.get("h")
+        return _outcome(lambda: h(**kw))
     if k == "gen":
         g = world.get("gen")
         acc = _val(op["acc"])
@@ -347,8 +373,10 @@ def execute(plan):
     tail = [{"op": "init", "cls": "A", "data": {"n": 1}}, {"op": "init", "cls": "D", "data": {"n": 1}},
             {"op": "call", "args": [1], "kw": {}}, {"op": "gen", "n": 2, "take": 3, "acc": None},
             {"op": "init", "cls": "FD", "data": {}}, {"op": "init", "cls": "A", "data": {"n": 2, "inner": {"v": 1}, "inners": [{"v": 2}]}},
-            {"op": "local", "data": {"me": {}}}]
+            {"op": "local", "data": {"me": {}}}, {"op": "call_h", "kw": {"n": 1}}, {"op": "call_h", "kw": {"x": {"v": 1}, "xs": [{"v": 2}]}},
+            {"op": "init", "cls": "D", "data": {"n": 1, "exd": 5}}, {"op": "init", "cls": "A", "data": {"n": 1, "exd": 5}}]
     n_user = len(ops)
+    tail_out = {}
     for n, op in enumerate(ops + tail):
         k = op["op"]
         is_tail = n >= n_user
@@ -410,6 +438,8 @@ def execute(plan):
             res.stats["fault:leaf_fail"] += leaf_fired
             res.stats["probe:leaf_fault"] += 1
         res.stats["op:" + k] += 1
+        if is_tail and not hook_fired:
+            tail_out[n - n_user] = out
         results.append((n, val))
         if len(results) > 8:
             results.pop(0)
@@ -421,6 +451,8 @@ def execute(plan):
             fresh_inputs = [_val(snap_op["data"])]
         elif k == "call":
             fresh_inputs = [_val(snap_op["args"]), _val(snap_op["kw"])]
+        elif k == "call_h":
+            fresh_inputs = [_val(snap_op["kw"])]
         elif k == "gen" and snap_op["acc"] is not None:
             fresh_inputs = [_val(snap_op["acc"])]
         for given, fresh in zip(inputs, fresh_inputs):
@@ -461,10 +493,61 @@ def execute(plan):
             res.stats["probe:default_taken"] += 1
         if res.violations:
             break
+    res.tail_out = tail_out
+    if plan.get("fresh_process") and not res.violations:
+        # the history itself is replayed in a fresh interpreter too, so that what is compared is a function of this plan
+        # alone (this worker process has executed other plans before)
+        p2 = dict(plan)
+        p2["fresh_process"] = False
+        hist = fresh_process_outcomes({"mode": "history", "plan": p2})
+        fresh = fresh_process_outcomes({"params": p, "defined": defined, "faults": leaf_only, "ops": tail})
+        res.stats["probe:fresh_process_compared"] += 1
+        for i, (op, want) in enumerate(zip(tail, fresh)):
+            got = hist.get(str(i))
+            if got is not None and want is not None and got != want:
+                res.violate(f"C19|P3|{op['op']}:{op.get('cls', '-')}|fresh-process|{'value' if got[0] == want[0] else got[0] + '_vs_' + want[0]}",
+                            f"probe {op} gave {kernel.jdump(got)[:200]} after this history (history and probe in one fresh interpreter) but {kernel.jdump(want)[:200]} alone in another fresh interpreter")
+                break
     if res.nontrivial:
         res.nontrivial = kernel.digest_of([plan["params"], [[o["op"], o.get("cls"), o.get("data"), o.get("args")] for o in plan["ops"]],
                                            sorted((plan["faults"].get("hook") or {}).items())])
     return res
+
+
+def fresh_process_outcomes(job):
+    """Outcomes of the given operations, each alone in a fresh world, computed by a fresh interpreter."""
+    import json
+    import os
+    import subprocess
+    import sys
+    env = dict(os.environ)
+    env["PYTHONHASHSEED"] = "0"
+    env["PYTHONDONTWRITEBYTECODE"] = "1"
+    pr = subprocess.run([sys.executable, os.path.abspath(__file__)], input=json.dumps(job), capture_output=True, text=True,
+                        env=env, cwd=kernel.VERIF, timeout=300)
+    if pr.returncode != 0:
+        raise kernel.HarnessError(f"C19 fresh-process helper failed: {pr.stdout[-500:]}{pr.stderr[-1500:]}")
+    return json.loads(pr.stdout.strip().splitlines()[-1])
+
+
+def _fresh_main():
+    import json
+    import sys
+    job = json.loads(sys.stdin.read())
+    kernel.bootstrap()
+    if job.get("mode") == "history":
+        r = execute(job["plan"])
+        print(json.dumps({str(k): json.loads(kernel.jdump(v)) for k, v in r.tail_out.items()}))
+        return
+    kernel.reset_world()
+    faults.register_leaves()
+    faults.set_plan(job["faults"])
+    outs = []
+    for op in job["ops"]:
+        w = World(job["params"], "fresh", with_inner=job["defined"])
+        _v, out = run_op(w, op)
+        outs.append(json.loads(kernel.jdump(out)))
+    print(json.dumps(outs))
 
 
 # ----------------------------------------------------------------------------- shrinking
@@ -501,3 +584,7 @@ def shrink(plan):
                 p = copy.deepcopy(plan)
                 p["ops"][i]["args"].pop()
                 yield p
+
+
+if __name__ == "__main__":
+    _fresh_main()
